@@ -1,7 +1,7 @@
 (* C17 / C18 bridge: the byte-level prefix scans that the two binding listings perform select
    exactly the records the model's listings select (filter on atoms), also for service names that
    are prefixes of one another.  Names and addresses of the model are atoms; [nb] / [ab] are their
-   byte forms (Section hypotheses: injective, names zero-free - ValidateServiceName admits only
+   byte forms (Section hypotheses: injective, names zero-free - ValidateServiceName accepts only
    [a-zA-Z0-9_-] - and owners of the account length 20 for the owner-prefixed index, cf. K5). *)
 From Coq Require Import List NArith ZArith Bool Lia.
 From SVC Require Import Base.AMap Base.Bytes gen.KeysGen Model.Types Model.Handlers Model.Queries
